@@ -312,6 +312,49 @@ def real_check(case):
 
 
 # ------------------------------------------------------------------ batches larger than every internal block size
+# ------------------------------------------------------------------ the recovery offset at every sampling rate x recovery duration
+RATES = (2500, 2500.0, 12500, 20000, 20500, 24414.0625, 25000, 30000, 30000.4, 32000, 44100)
+DURATIONS_MS = (0.16, 0.3, 0.6, 0.8, 1.0, 2.0, 4.0)
+
+
+def rate_cases(tier, seed):
+    return [(fs, ms) for fs in RATES for ms in DURATIONS_MS]
+
+
+def rate_check(case):
+    """the recovery offset is the recovery duration in samples at the given rate: trough + offset, or the last sample when that runs past the end"""
+    fs, ms = case
+    exact = ms * float(fs) / 1000.0
+    if abs(exact - np.floor(exact) - 0.5) < 0.05:
+        return Res([], o=("ambiguous-rounding",), nt=False)
+    d = int(np.floor(exact + 0.5))
+    T = max(24, 2 * d + 8)
+    # peaks at every position that leaves room for a trough; trough 2 samples after the peak
+    batch = []
+    for p in range(2, T - 2):
+        for pol in (-1.0, 1.0):
+            w = np.zeros((T, 2))
+            w[p - 1, 0], w[p, 0], w[p + 2 if p + 2 < T else T - 1, 0] = -4 * pol, -20 * pol, 6 * pol
+            w[:, 1] = 0.25 * w[:, 0]
+            batch.append(w)
+    batch = np.array(batch)
+    try:
+        df = waveforms.compute_spike_features(batch.copy(), fs=fs, recovery_duration_ms=ms)
+    except Exception as e:
+        return Res([("rates:exc:%s" % type(e).__name__, "fs=%r recovery_duration_ms=%r: %s: %s" % (fs, ms, type(e).__name__, e))])
+    cols, arr = _rows(df)
+    v = []
+    nfall = 0
+    for i in range(batch.shape[0]):
+        row = dict(zip(cols, arr[i]))
+        bad = check_one(np.nan_to_num(batch[i]), row, d, T)
+        nfall += int(row["trough_time_idx"]) + d > T - 1
+        if bad:
+            v.append(("rates:" + bad[0], "fs=%r recovery_duration_ms=%r (offset %d samples), waveform with its peak at sample %d of %d: %s" % (fs, ms, d, 2 + i // 2, T, bad[1])))
+            break
+    return Res(v, o=(d > 5, nfall > 0, nfall < batch.shape[0]), tr=batch.shape[0])
+
+
 def big_cases(tier, seed):
     from mc import thresholds
     mined = thresholds.beyond(thresholds.mine([waveforms], 200, 40000), cap=45000)
@@ -371,6 +414,8 @@ CHECK = {
     "clauses": [
         Clause("small", "all small waveforms, batch + singletons + scaling + channel permutation", cases=small_cases, check=small_check),
         Clause("large-batches", "batches just beyond every size constant mined from ibldsp.waveforms (and 4200 / 8300 / 66000 waveforms): rows = features alone", cases=big_cases, check=big_check),
+        Clause("rates", "sampling rate x recovery duration (LF / AP / odd rates, 0.16 - 4 ms): the recovery point is the trough plus the duration in samples, or the last sample past the end",
+               cases=rate_cases, check=rate_check),
         Clause("realistic", "model spikes of either polarity, lengths 10-200, 1-40 channels, NaN channels, extrema on the last samples", cases=real_cases, check=real_check),
         _layouts.make_clause(__import__("checks._layout_specs", fromlist=["x"]).c14()),
     ],
